@@ -286,9 +286,24 @@ def _crafted(case, ctx, res):
         def put(i, typ, off, size):
             raw[0x2008 + 18 * i : 0x2008 + 18 * i + 18] = struct.pack("<BIQIB", typ, 0, off, size, 1)
 
+        # offsets that are not multiples of the file's alignment (a reader that rounds them finds the same tables again under
+        # another number): the cycle is the same, its spelling differs
+        skew = rng.choice([0, 0, 1, 7, 0x800, 0xFFF]) if case["r"] % 2 else 0
+        label += f":skew{skew:#x}"
         if c == "hv-self":
-            put(slots[0], 1, 0x2000, 0x1000)
+            put(slots[0], 1, 0x2000 - skew if skew else 0x2000, 0x1000)
+            if skew:
+                put(slots[1], 1, 0x1000 + (0x1000 - skew), 0x1000)
         elif c == "hv-pair":
+            second = -(-len(raw) // 0x1000) * 0x1000
+            raw += b"\0" * (second - len(raw))
+            if skew:
+                second_ref = second - skew
+            else:
+                second_ref = second
+            raw += struct.pack("<II", 0x01110001, 1) + struct.pack("<BIQIB", 1, 0, 0x2000 - skew if skew else 0x2000, 0x1000, 1) + b"\0" * 64
+            put(slots[0], 1, second_ref, 0x1000)
+        elif False:  # (kept for the diff's sake: the old, aligned-only construction)
             second = len(raw)
             raw += struct.pack("<II", 0x01110001, 1) + struct.pack("<BIQIB", 1, 0, 0x2000, 0x1000, 1) + b"\0" * 64
             put(slots[0], 1, second, 0x1000)
